@@ -22,7 +22,7 @@ RULE = (
     "coefficients +-[0.1,1] on the grid's normalised variable, one target grid for get_interpolation: random points "
     "(same or different length), the nodes themselves, the nodes with every point below 1e-7 (at least the lowest) "
     "moved up by a factor 1.5-3, or the nodes jittered by a relative 1e-7..8e-6. Separate 'reject' cases: repeated "
-    "point, fewer than degree+1 points, fewer than 2 points, degree < 1, passed as list or as XGrid, must raise "
+    "point, fewer than degree+1 points, fewer than 2 points, degree < 1, passed as list, tuple, numpy array or XGrid (built from a list or an array; ordered or not), must raise "
     "ValueError. Non-trivial = (>= 5 points, non-uniform spacing, degree >= 2) or a target grid that differs from "
     "the nodes, or a reject case; distinct by the whole case."
 )
@@ -165,7 +165,7 @@ def strategy(tier):
     @st.composite
     def reject(draw):
         why = pick(draw, ["repeated", "too-few-for-degree", "lt2", "deg<1"])
-        via = draw(st.sampled_from(["list", "XGrid"]))
+        via = draw(st.sampled_from(["list", "XGrid", "ndarray", "XGrid-ndarray", "tuple"]))
         if why == "lt2":
             log = draw(st.booleans())
             grid = draw(st.sampled_from([[], [1.0], [0.1], [1e-7]]))
@@ -176,6 +176,8 @@ def strategy(tier):
             k = draw(st.integers(0, n - 1))
             pos = draw(st.integers(0, n))
             grid = grid[:pos] + [grid[k]] + grid[pos:]
+            if draw(st.booleans()):
+                grid = sorted(grid)  # an ordered grid with a repeated point must be refused as well
             deg = draw(st.integers(1, min(6, n - 1)))
         elif why == "too-few-for-degree":
             deg = draw(st.integers(n, n + 3))
@@ -220,10 +222,12 @@ def check_case(case):
         res.classes = [f"reject:{why}", f"via={via}"]
         res.nontrivial = True
         try:
-            if via == "XGrid":
-                ip.InterpolatorDispatcher(ip.XGrid(grid, log=log), deg, mode_N=False)
+            arg = {"ndarray": np.array(grid, dtype=float), "XGrid-ndarray": np.array(grid, dtype=float),
+                   "tuple": tuple(grid)}.get(via, grid)
+            if via.startswith("XGrid"):
+                ip.InterpolatorDispatcher(ip.XGrid(arg, log=log), deg, mode_N=False)
             else:
-                ip.InterpolatorDispatcher(grid, deg, mode_N=False)
+                ip.InterpolatorDispatcher(arg, deg, mode_N=False)
         except ValueError:
             return res
         except Exception as e:  # noqa: BLE001 - the contract names ValueError
